@@ -135,7 +135,10 @@ def run(ctx, out, tier):
             rend_in_start = any(l[0] == "call" and re.search(r"regex::Match(::<'h>)?::range$", l[1]) and "end" in l[2] for l in sc)
             len_in_start = P.has_call(sc, r"<impl str>::len$")
             uses_regex = name != "line-pattern"
-            if (ptr and (rstart or not uses_regex)) and not rend_in_start and not len_in_start:
+            # the left offset as a length difference is right exactly when only the LEFT side was
+            # trimmed: `line.len() - line.trim_start().len()`
+            left_only = len_in_start and P.has_call(sc, r"<impl str>::trim_start$") and not P.has_call(sc, r"<impl str>::(trim|trim_end|trim_ascii|trim_ascii_end|trim_matches|trim_end_matches)$")
+            if ((ptr or left_only) and (rstart or not uses_regex)) and not rend_in_start and (not len_in_start or left_only):
                 n_cols += 1
             else:
                 what = []
